@@ -11,7 +11,7 @@ let bits (l : bool list) : string =
 
 let err_class (e : Sparse.rerr) : string =
   match e with
-  | Sparse.XStore c -> (match int_of_n c with 1 -> "missing" | 2 -> "fault" | n -> "store" ^ string_of_int n)
+  | Sparse.XStore c -> (match int_of_n c with 1 -> "missing" | 2 -> "fault" | 3 -> "other" (* undecodable object: Chunk.Data() fails *) | n -> "store" ^ string_of_int n)
   | Sparse.XNoData -> "other"
   | Sparse.XNegative -> "other"
 
